@@ -26,6 +26,23 @@ fn script(s: FaultSink, a: &Api, write: impl Fn(&mut FaultSink, &[u8]) -> std::i
     a.call("finish", || write(&mut s, CHUNKS[3]).and_then(|_| finish(&mut s)));
 }
 
+/// the same with the terminating call retried twice after a failure (`finish` keeps its own state)
+fn script_retry(s: FaultSink, a: &Api, finish: impl Fn(&mut FaultSink) -> std::io::Result<()>) {
+    let mut s = s;
+    if a.call("new", || s.write_all(CHUNKS[0])).is_none() {
+        return;
+    }
+    for c in &CHUNKS[1..3] {
+        if a.call("write", || s.write_all(c)).is_none() {
+            break;
+        }
+    }
+    if a.panicked() {
+        return;
+    }
+    a.retry("finish", 3, || finish(&mut s).map_err(|e| e.to_string()));
+}
+
 fn retry_intr(s: &mut FaultSink, b: &[u8]) -> std::io::Result<usize> {
     loop {
         match s.write(b) {
@@ -37,7 +54,7 @@ fn retry_intr(s: &mut FaultSink, b: &[u8]) -> std::io::Result<usize> {
 
 /// (case, the plans under which its defect shows)
 pub fn writers() -> Vec<(WCase, Vec<Plan>)> {
-    let mk = |variant: &'static str, run: crate::wsess::Run| WCase { fmt: "selftest", variant, random_sync: false, primary: true, whole_writes: false, read_back: None, run };
+    let mk = |variant: &'static str, run: crate::wsess::Run| WCase { fmt: "selftest", variant, random_sync: false, primary: true, term_only: false, whole_writes: false, read_back: None, run };
     vec![
         // `write` instead of `write_all`: the rest of a short write is lost, every call reports success
         (
@@ -138,6 +155,39 @@ pub fn writers() -> Vec<(WCase, Vec<Plan>)> {
             ),
             vec![Plan { k: 3, kind: Kind::Interrupted }],
         ),
+        // `finished` is set before the fallible write of the trailer: a retried finish reports success
+        // with the trailer missing
+        (
+            mk("finish_marks_done_before_write", {
+                Box::new(|s, a| {
+                    let done = std::cell::Cell::new(false);
+                    script_retry(s, a, |s| {
+                        if !done.get() {
+                            done.set(true);
+                            s.write_all(CHUNKS[3])?;
+                        }
+                        s.flush()
+                    })
+                })
+            }),
+            vec![Plan { k: 4, kind: Kind::ErrorOnce }, Plan { k: 4, kind: Kind::Zero }],
+        ),
+        // the same for a writer that never flushes (a dead sink: the retry cannot have written anything)
+        (
+            mk("finish_marks_done_before_write_noflush", {
+                Box::new(|s, a| {
+                    let done = std::cell::Cell::new(false);
+                    script_retry(s, a, |s| {
+                        if !done.get() {
+                            done.set(true);
+                            s.write_all(CHUNKS[3])?;
+                        }
+                        Ok(())
+                    })
+                })
+            }),
+            vec![Plan { k: 4, kind: Kind::Error }, Plan { k: 4, kind: Kind::ErrorOnce }],
+        ),
         // reports an error that never happened
         (
             mk("spurious_error", Box::new(|s, a| script(s, a, |s, b| s.write_all(b), |_| Err(std::io::Error::other("made up"))))),
@@ -148,7 +198,30 @@ pub fn writers() -> Vec<(WCase, Vec<Plan>)> {
 
 /// control: the same script with write_all + flush, under every plan: must be accepted
 pub fn good_writer() -> WCase {
-    WCase { fmt: "selftest", variant: "control", random_sync: false, primary: true, whole_writes: false, read_back: None, run: Box::new(|s, a| script(s, a, |s, b| s.write_all(b), |s| s.flush())) }
+    WCase { fmt: "selftest", variant: "control", random_sync: false, primary: true, term_only: false, whole_writes: false, read_back: None, run: Box::new(|s, a| script(s, a, |s, b| s.write_all(b), |s| s.flush())) }
+}
+
+/// control: a terminating call that remembers what it has written, retried after a failure
+pub fn good_retry_writer() -> WCase {
+    WCase {
+        fmt: "selftest",
+        variant: "control-retry",
+        random_sync: false,
+        primary: true,
+        term_only: false,
+        whole_writes: false,
+        read_back: None,
+        run: Box::new(|s, a| {
+            let written = std::cell::Cell::new(false);
+            script_retry(s, a, |s| {
+                if !written.get() {
+                    s.write_all(CHUNKS[3])?;
+                    written.set(true);
+                }
+                s.flush()
+            })
+        }),
+    }
 }
 
 /// control: complete lines only, a partial last line or a source error is an error
